@@ -1084,8 +1084,11 @@ bool TimeZoneInfo::NextTransition(const time_point<seconds>& tp,
   const Transition* tr = std::upper_bound(begin, end, target,
                                           Transition::ByUnixTime());
   for (; tr != end; ++tr) {  // skip no-op transitions
-    std::uint_fast8_t prev_type_index =
-        (tr == begin) ? default_transition_type_ : tr[-1].type_index;
+    // Note: A skipped BIG_BANG entry still determines the type in effect
+    // before the transition that follows it.
+    std::uint_fast8_t prev_type_index = (tr == &transitions_[0])
+                                            ? default_transition_type_
+                                            : tr[-1].type_index;
     if (!EquivTransitions(prev_type_index, tr[0].type_index)) break;
   }
   // When tr == end we return false, ignoring future_spec_.
@@ -1119,8 +1122,11 @@ bool TimeZoneInfo::PrevTransition(const time_point<seconds>& tp,
   const Transition* tr = std::lower_bound(begin, end, target,
                                           Transition::ByUnixTime());
   for (; tr != begin; --tr) {  // skip no-op transitions
-    std::uint_fast8_t prev_type_index =
-        (tr - 1 == begin) ? default_transition_type_ : tr[-2].type_index;
+    // Note: A skipped BIG_BANG entry still determines the type in effect
+    // before the transition that follows it.
+    std::uint_fast8_t prev_type_index = (tr - 1 == &transitions_[0])
+                                            ? default_transition_type_
+                                            : tr[-2].type_index;
     if (!EquivTransitions(prev_type_index, tr[-1].type_index)) break;
   }
   // When tr == end we return the "last" transition, ignoring future_spec_.
